@@ -34,6 +34,24 @@ func checkC11(c *Check) {
 				r1.AddAt(in.Status, k, in.Pos, in.Msg)
 			}
 		}
+		// a by-value parameter is the caller's own storage at -O2 (borrowed) and the callee's copy at -O0/-O1: returning it
+		// has to deep-copy it at every level. A "move out of the local" is right at -O0/-O1 and a shared block at -O2.
+		runStoreScenarios(L, func(k string, runs int, bad []string) {
+			if !strings.Contains(k, "VisitReturnStmt") || !strings.HasSuffix(k, "value not temporary") {
+				return
+			}
+			if runs == 0 {
+				r1.Und(k, token.NoPos, "not evaluated")
+				return
+			}
+			var alias []string
+			for _, b := range bad {
+				if strings.Contains(b, "two owners") || strings.Contains(b, "never receives") || strings.Contains(b, "not a temporary") {
+					alias = append(alias, b)
+				}
+			}
+			r1.Decide(len(alias) == 0, k, token.NoPos, "a returned variable or parameter is deep-copied into the result", strings.Join(uniq(alias), "; ")+" - a parameter the caller only lends at -O2 would leave the function as the result: behaviour differs between optimisation levels")
+		})
 	}
 
 	// ---------------- R11.2 ----------------
